@@ -56,7 +56,7 @@ def mm(A, B):
     if not B:
         return [[] for _ in A] if not A[0] else [[F(0)] * 0 for _ in A]
     Bt = list(zip(*B))
-    return [[sum((a * b for a, b in zip(r, c)), F(0)) for c in Bt] for r in A]
+    return [[sum((a * b for a, b in zip(r, c) if a and b), F(0)) for c in Bt] for r in A]
 
 
 def tr(A):
@@ -297,7 +297,19 @@ def joint_maps(A, C, G, H, T):
     return Lx, Ly, N
 
 
+_BC_CACHE = {}
+
+
 def batch_condition(A, C, G, H, xh, S0, ys, target):
+    key = (ratm(A), ratm(C), ratm(G), ratm(H), rats(xh), ratm(S0), ratm(ys), target)
+    if key not in _BC_CACHE:
+        if len(_BC_CACHE) > 64:
+            _BC_CACHE.clear()
+        _BC_CACHE[key] = _batch_condition(A, C, G, H, xh, S0, ys, target)
+    return _BC_CACHE[key]
+
+
+def _batch_condition(A, C, G, H, xh, S0, ys, target):
     """exact conditional mean/covariance of x_target given y_0..y_{T-1} (T = len(ys)), prior x_0 ~ (xh, S0).
     Returns (mean, cov, cond_inf(S_yy)) or None when S_yy is singular."""
     n, T = len(A), len(ys)
@@ -406,8 +418,11 @@ def is_int_valued(Mx):
 
 
 def mat_form(Mx, kind):
-    """matrix (list of rows of integer-valued Fractions) in the requested representation"""
-    ints = [[int(v) for v in r] for r in Mx]
+    """matrix (list of rows of Fractions; integer-valued for the integer kinds) in the requested representation"""
+    if kind in ("float", "F", "strided"):
+        ints = [[float(v) for v in r] for r in Mx]
+    else:
+        ints = [[int(v) for v in r] for r in Mx]
     if kind == "float":
         return np.array(ints, dtype=float)
     if kind == "list":
@@ -429,7 +444,7 @@ def mat_form(Mx, kind):
 
 
 def vec_form(v, kind):
-    ints = [int(t) for t in v]
+    ints = [float(t) for t in v] if kind in ("float-col", "strided") else [int(t) for t in v]
     if kind == "float-col":
         return np.array(ints, dtype=float).reshape(-1, 1)
     if kind == "list":
@@ -489,9 +504,27 @@ def run(ctx):
                 "(dyadic and arbitrary doubles); a case is non-trivial when n>=2 or the record has >=2 observations (Kalman), "
                 "ts>=3 (simulation), j>=2 / k>=2 (impulse, moments), n>=2 (others); distinct by request line")
 
+    owned_all = []      # (label, object, snapshot) of everything handed to LinearStateSpace: must stay unchanged
+
+    def any_mat(Mx, label):
+        if not Mx or not Mx[0]:
+            return to_np(Mx)
+        kind = rng.choice(MAT_FORMS if is_int_valued(Mx) else ["float", "float", "F", "strided"])
+        ctx.count("lssforms:mat=" + kind)
+        o = mat_form(Mx, kind)
+        owned_all.append((label + ":" + kind, o, snapshot(o)))
+        return o
+
+    def any_vec(v, label):
+        kind = rng.choice(VEC_FORMS if all(t.denominator == 1 for t in v) else ["float-col", "float-col", "strided"])
+        ctx.count("lssforms:vec=" + kind)
+        o = vec_form(v, kind)
+        owned_all.append((label + ":" + kind, o, snapshot(o)))
+        return o
+
     def mk_ss(A, C, G, H, mu0=None, S0=None):
-        return LinearStateSpace(to_np(A), to_np(C), to_np(G), None if H is None else to_np(H),
-                                None if mu0 is None else to_np(col(mu0)), None if S0 is None else to_np(S0))
+        return LinearStateSpace(any_mat(A, "A"), any_mat(C, "C"), any_mat(G, "G"), None if H is None else any_mat(H, "H"),
+                                None if mu0 is None else any_vec(mu0, "mu_0"), None if S0 is None else any_mat(S0, "Sigma_0"))
 
     # ---- Kalman: finite observation records --------------------------------------------------------
     def kalman_case(A, C, G, H, xh, S0, ys, mode, expect_singular=False, objs=None, tag=None):
@@ -538,11 +571,12 @@ def run(ctx):
                 return
         # the covariance path must not depend on the data (same record length, other observations and x_hat)
         if mode == "update" and status == "ok" and ys:
-            kn2 = Kalman(mk_ss(A, C, G, H), to_np(col([v + 1 for v in xh])), to_np(S0))
+            kn2 = Kalman(kn.ss, to_np(col([v + 1 for v in xh])), to_np(S0))
             try:
                 for y in ys:
                     kn2.update(to_np(col([-2 * v + 3 for v in y])))
-                if not np.array_equal(kn2.Sigma, states[-1][1]):
+                # (not bitwise: the prior may have been handed over in another memory layout, BLAS then rounds differently)
+                if not np.allclose(kn2.Sigma, states[-1][1], rtol=1e-11, atol=1e-11 * max(1.0, float(np.abs(states[-1][1]).max()))):
                     ctx.spec_fail("kalman_sigma_data_dependent", "Sigma after the record depends on the observations / x_hat", replay)
             except LinAlgError:
                 ctx.spec_fail("kalman_sigma_data_dependent", "the filter fails on one record and not on another of the same length", replay)
@@ -640,6 +674,97 @@ def run(ctx):
             pre = 0
         ys = [gen_vec(rng, k) for _ in range(pre + 2)]
         kalman_case(A, C, G, H, gen_vec(rng, n), S0, ys, rng.choice(["update", "p2f"]), expect_singular=True)
+
+    # ---- Kalman: input representations, object reuse, aliasing -----------------------------------------
+    # integer-valued models handed over as python ints / lists / integer ndarrays / 0-d / F-ordered / strided views;
+    # the same prior objects reused after set_state(); the same observation object reused across update() calls;
+    # afterwards none of the caller's objects may have changed
+    def int_diag_dom(kk, lo, hi):
+        Hm = gen_mat(rng, kk, kk, den=1, lo=lo, hi=hi)
+        for i_ in range(kk):
+            Hm[i_][i_] = F(rng.randint(1, 3)) + sum(abs(Hm[i_][j_]) for j_ in range(kk) if j_ != i_)
+        return Hm
+
+    def int_prior(n_):
+        L = gen_mat(rng, n_, n_, den=1, lo=-2, hi=2)
+        for i_ in range(n_):
+            L[i_][i_] += F(2)
+        return [F(rng.randint(-9, 9)) for _ in range(n_)], mm(L, tr(L))
+
+    n_forms = ctx.n(50, 700)
+    made = attempts = 0
+    while made < n_forms and attempts < 30 * n_forms:
+        attempts += 1
+        n, k = rng.randint(1, 3), rng.randint(1, 2)
+        scalar = n == 1 and k == 1 and rng.random() < 0.6
+        A = gen_mat(rng, n, n, den=1, lo=-1, hi=1)
+        C = gen_mat(rng, n, rng.randint(1, 2), den=1, lo=-2, hi=2)
+        G = gen_mat(rng, k, n, den=1, lo=-2, hi=2)
+        H = int_diag_dom(k, -1, 1)
+        xh, S0 = int_prior(n)
+        if scalar and rng.random() < 0.3:
+            xh, S0 = [F(8)], [[F(1)]]            # the lecture's Kalman(ss, 8, 1)
+        x2, S2 = int_prior(n)
+        T1, T2 = rng.randint(1, 4), rng.randint(0, 3)
+        same_y = rng.random() < 0.35
+        y_one = [F(rng.randint(-9, 9)) for _ in range(k)]
+        ys1 = [list(y_one) if same_y else [F(rng.randint(-9, 9)) for _ in range(k)] for _ in range(T1)]
+        ys2 = [[F(rng.randint(-9, 9)) for _ in range(k)] for _ in range(T2)]
+        again = T2 > 0 and rng.random() < 0.3      # set_state with the SAME prior objects and the same record
+        if again:
+            x2, S2, ys2, T2 = xh, S0, ys1, T1
+        b = batch_condition(A, C, G, H, xh, S0, ys1, T1)
+        b2 = batch_condition(A, C, G, H, x2, S2, ys2, T2) if T2 else (0, 0, F(1))
+        if b is None or b2 is None or b[2] > COND_MAX or b2[2] > COND_MAX:
+            continue
+        made += 1
+        owned = {}
+        if scalar:
+            fk = {nm: rng.choice(SCALAR_FORMS) for nm in ("A", "C", "G", "H", "x", "S", "x2", "S2", "y")}
+            C1 = [[C[0][0]]]
+            C = C1
+            owned["A"], owned["C"], owned["G"], owned["H"] = (scalar_form(Mx[0][0], fk[nm]) for Mx, nm in
+                                                              ((A, "A"), (C, "C"), (G, "G"), (H, "H")))
+            owned["x"], owned["S"] = scalar_form(xh[0], fk["x"]), scalar_form(S0[0][0], fk["S"])
+            owned["x2"], owned["S2"] = (owned["x"], owned["S"]) if again else \
+                (scalar_form(x2[0], fk["x2"]), scalar_form(S2[0][0], fk["S2"]))
+            mk_y = lambda y: scalar_form(y[0], fk["y"])
+        else:
+            fk = {nm: rng.choice(MAT_FORMS) for nm in ("A", "C", "G", "H", "S", "S2")}
+            fk.update({nm: rng.choice(VEC_FORMS) for nm in ("x", "x2", "y")})
+            owned["A"], owned["C"], owned["G"], owned["H"] = (mat_form(Mx, fk[nm]) for Mx, nm in
+                                                              ((A, "A"), (C, "C"), (G, "G"), (H, "H")))
+            owned["x"], owned["S"] = vec_form(xh, fk["x"]), mat_form(S0, fk["S"])
+            owned["x2"], owned["S2"] = (owned["x"], owned["S"]) if again else (vec_form(x2, fk["x2"]), mat_form(S2, fk["S2"]))
+            mk_y = lambda y: vec_form(y, fk["y"])
+        if same_y:
+            yo = mk_y(ys1[0])
+            y1objs = [yo] * T1                    # one observation object reused across the update() calls
+        else:
+            y1objs = [mk_y(y) for y in ys1]
+        y2objs = y1objs if again else [mk_y(y) for y in ys2]
+        for j_, o in enumerate(y1objs + y2objs):
+            owned["y%d" % j_] = o
+        snaps = {nm: snapshot(o) for nm, o in owned.items()}
+        forms = ("scalar " if scalar else "") + " ".join("%s=%s" % kv for kv in sorted(fk.items())) + \
+            (" same-y-object" if same_y else "") + (" set_state-same-objects" if again else "")
+        for nm in ("x", "S", "y"):
+            ctx.count("forms:%s=%s" % (nm, fk[nm]))
+        ctx.count("forms:scalar" if scalar else "forms:n=%d" % n)
+        if same_y:
+            ctx.count("forms:same-y-object")
+        ss_obj = LinearStateSpace(owned["A"], owned["C"], owned["G"], owned["H"])
+        o1 = dict(kn=None, ss=ss_obj, x=owned["x"], S=owned["S"], ys=y1objs, forms=forms)
+        kalman_case(A, C, G, H, xh, S0, ys1, "update", objs=o1, tag="kalman-forms")
+        if T2:
+            ctx.count("forms:set_state" + ("-same-objects" if again else ""))
+            o2 = dict(kn=o1["kn_out"], x=owned["x2"], S=owned["S2"], ys=y2objs, forms=forms + " after-set_state")
+            kalman_case(A, C, G, H, x2, S2, ys2, "update", objs=o2, tag="kalman-setstate")
+        changed = [nm for nm, o in owned.items() if snapshot(o) != snaps[nm]]
+        if changed:
+            ctx.spec_fail("kalman_caller_modified", "the filter modified the caller's objects %s" % changed,
+                          {"op": "kalman", "mode": "update", "forms": forms, "A": ratm(A), "C": ratm(C), "G": ratm(G),
+                           "H": ratm(H), "x_hat": rats(xh), "Sigma": ratm(S0), "ys": ratm(ys1)})
 
     # ---- Kalman: stationary values ------------------------------------------------------------------
     n_stat = ctx.n(30, 700)
@@ -745,6 +870,16 @@ def run(ctx):
         H = None if (allow_noH and rng.random() < 0.3) else gen_H(rng, k, rng.choice(["full", "zero", "zerorow", "thin", "any"]))
         mu0 = gen_vec(rng, n, den=4, lo=-8, hi=8)
         S0 = gen_psd(rng, n, rng.choice(["full", "low", "zero"]))
+        if rng.random() < 0.3:      # integer-valued model: reaches the integer representations of mk_ss
+            ctx.count("lss:integer-model")
+            A = gen_mat(rng, n, n, den=1, lo=-1, hi=1)
+            C = gen_mat(rng, n, m, den=1, lo=-2, hi=2)
+            G = gen_mat(rng, k, n, den=1, lo=-2, hi=2)
+            if H is not None:
+                H = gen_mat(rng, k, len(H[0]), den=1, lo=-2, hi=2)
+            mu0 = gen_vec(rng, n, den=1, lo=-8, hi=8)
+            L = gen_mat(rng, n, n, den=1, lo=-2, hi=2)
+            S0 = mm(L, tr(L))
         return n, k, m, A, C, G, H, mu0, S0
 
     def check_stream(calls, mu0, S0, expect, key, replay):
@@ -903,8 +1038,14 @@ def run(ctx):
             ss = mk_ss(A, C, G, H, mu0, S0)
             singular = True
         replay = {"op": "geosum", "A": ratm(A), "G": ratm(G), "beta": rat(beta), "x": rats(xt)}
+        if not singular and solve_exact(msub(eye(n), scal(beta, A)), eye(n)) is None:
+            ctx.count("geosum:singular-skipped")      # exactly singular without a zero row: detection in doubles not guaranteed
+            continue
+        xkind = rng.choice(["float-col", "intcol", "listcol"]) if all(t.denominator == 1 for t in xt) else "float-col"
+        xobj = vec_form(xt, xkind)
+        owned_all.append(("x_t:" + xkind, xobj, snapshot(xobj)))
         try:
-            Sx, Sy = ss.geometric_sums(float(beta), to_np(col(xt)))
+            Sx, Sy = ss.geometric_sums(float(beta), xobj)
             impl = "ok Sx=%s Sy=%s" % (wire_f(Sx), wire_f(Sy))
             IbA = msub(eye(n), scal(beta, A))
             Sxe = fm(Sx)
@@ -1041,6 +1182,11 @@ def run(ctx):
             mu0[c] = cval if rng.random() < 0.7 else F(rng.randint(-8, 8), 4)
         statdist_case(A, C, G, H, mu0, consts, miss)
 
+    changed = [lab for lab, o, sn in owned_all if snapshot(o) != sn]
+    if changed:
+        ctx.spec_fail("lss_caller_modified", "LinearStateSpace / Kalman modified the caller's input objects: %s" % changed[:5],
+                      {"op": "aliasing", "objects": changed[:20]})
+    ctx.count("aliasing:objects-checked", len(owned_all))
     ctx.run_cases(cases)
     ctx.extra["envelopes"] = {"kalman/stationary/geosum/statdist": ENV_K, "moments/impulse/simulation": ENV_X,
                               "max_rel_err_solve_ops": max(errs_k, default=0.0), "max_rel_err_product_ops": max(errs_x, default=0.0),
